@@ -11,13 +11,13 @@ theorem improper_nil (xs : List Term) : improperOfList xs .nil = ofList xs := by
   | nil => rfl
   | cons x xs ih => simp [improperOfList, ofList, ih]
 
-theorem ofList_inj : ∀ as bs : List Term, ofList as = ofList bs → as = bs
+theorem ofListT_inj : ∀ as bs : List Term, ofList as = ofList bs → as = bs
   | [], [], _ => rfl
   | [], _ :: _, h => nomatch h
   | _ :: _, [], h => nomatch h
   | a :: as, b :: bs, h => by
     simp only [ofList, Term.cons.injEq] at h
-    rw [h.1, ofList_inj as bs h.2]
+    rw [h.1, ofListT_inj as bs h.2]
 
 /-- `append(l, s, ls)` ⇔ `l` is a proper list `[x₁,…,xₙ]` and `ls` is `[x₁,…,xₙ | s]` -/
 theorem appT_iff (l s r : Term) : AppT l s r ↔ ∃ xs, l = ofList xs ∧ r = improperOfList xs s := by
@@ -43,7 +43,7 @@ theorem appT_ofList (xs ys : List Term) (r : Term) : AppT (ofList xs) (ofList ys
     | cons z zs ih => simp [improperOfList, ofList, ih]
   constructor
   · rintro ⟨zs, hz, rfl⟩
-    rw [ofList_inj _ _ hz, key]
+    rw [ofListT_inj _ _ hz, key]
   · rintro rfl
     exact ⟨xs, rfl, (key xs).symm⟩
 
@@ -182,7 +182,7 @@ theorem distT_iff (l : Term) : DistT l ↔ ∃ xs : List Term, l = ofList xs ∧
           simp only [ofList, Term.cons.injEq] at e1 e2
           obtain ⟨rfl, er1⟩ := e1
           obtain ⟨rfl, er2⟩ := e2
-          have : r1 = r2 := ofList_inj _ _ (er1.symm.trans er2)
+          have : r1 = r2 := ofListT_inj _ _ (er1.symm.trans er2)
           subst this
           refine ⟨f :: s :: r1, by simp [ofList, er1], ?_⟩
           rw [List.nodup_cons] at n1 n2 ⊢
